@@ -118,6 +118,7 @@ static uint32_t imm_value(Rng& rng) {
 // ------------------------------------------------------------------------------------------------
 static bool g_grid = false; static uint64_t g_gridA, g_gridB;
 static uint32_t g_forceImm = 0; static bool g_useForceImm = false; static int g_forceDst = -1;
+static bool g_memDirected = false; static uint64_t g_memWord = 0; static int g_forceFprc = -1;   // directed memory operand: the word the instruction reads
 static void step(Rng& rng, uint8_t opcode, bool v2, int force) {
 	State s; random_state(rng, s);
 	uint8_t w[8];
@@ -137,9 +138,16 @@ static void step(Rng& rng, uint8_t opcode, bool v2, int force) {
 		uint64_t want = rng.next() & ~(255ull << b); if (rng.below(2)) want |= (uint64_t)(1 + rng.below(255)) << b;
 		s.r[w[1] & 7] = want - cimm;
 	}
+	uint32_t memAddr = 0;
+	if (g_memDirected) { // src != dst, src register 0, immediate = an aligned L1 address: the operand is the scratchpad word at that address
+		w[2] = (uint8_t)(((w[1] & 7) + 1 + rng.below(7)) % 8 | (rng.next() & 0xf8));
+		s.r[w[2] & 7] = 0; memAddr = (uint32_t)rng.below(2048) * 8; memcpy(w + 4, &memAddr, 4);
+		if (g_forceFprc >= 0) s.fprc = (uint32_t)g_forceFprc;
+	}
 	int idx = (int)rng.below(384);
 	int usage[8]; for (int k = 0; k < 8; ++k) usage[k] = rng.below(3) ? (int)rng.below((uint32_t)idx + 1) - 1 : -1;
 	uint64_t seed = rng.next();
+	if (g_memDirected) seed = ((uint64_t)(memAddr / 8 + 1) * PATK) ^ g_memWord;      // the pattern word at memAddr is exactly g_memWord
 	fill_pattern(seed);
 
 	NativeRegisterFile nreg; to_native(s, nreg);
@@ -229,6 +237,17 @@ int main(int argc, char** argv) {
 			if (thorough || ((a * 64 + b) % 4 == 0)) step(rng, (uint8_t)(((a + b) & 1) ? 71 : 66), true, 0);
 		}
 		g_grid = false;
+	}
+	if (part == "memops" || part == "all") { // memory-operand instructions on directed operand words: zero / one / sign boundaries in each 32-bit half, every rounding mode
+		static const uint32_t H[] = { 0, 1, 0x7fffffffu, 0x80000000u, 0xffffffffu };
+		static const uint8_t mops[] = { 16, 39, 62, 70, 75, 101, 140, 161, 204 };
+		g_memDirected = true;
+		for (uint8_t op : mops) for (int a = 0; a < 5; ++a) for (int b = 0; b < 5; ++b) for (int rc = 0; rc < 4; ++rc) {
+			if (op < 120 && rc > 0) continue;                       // integer instructions do not depend on the rounding mode
+			g_memWord = ((uint64_t)H[a] << 32) | H[b]; g_forceFprc = rc;
+			step(rng, op, ((a + b + rc) & 1) != 0, 0);
+		}
+		g_memDirected = false; g_forceFprc = -1;
 	}
 	if (part == "rcpnoop" || part == "all") { // IMUL_RCP with every no-op divisor (0 and all powers of two) on every destination register
 		g_useForceImm = true;
